@@ -18,7 +18,7 @@ meta = {
     "origin": "fresh sub-agent given only the property text and a scratch worktree of /repo",
     "needs_to_manifest": needs,
     "confirmed_by_me": {
-        "test_suite_with_change": "100% tests passed" in log,
+        "test_suite_with_change": "SUITE: all passed" in log or "100% tests passed" in log,
         "demo_with_change_fails": "## demo WITH change\ndemo rc=0" not in log and "## demo WITH change" in log,
         "demo_without_change_passes": "## demo WITHOUT change\ndemo rc=0" in log,
         "how": "tools/seed_verify.sh in the scratch worktree (cmake build + ctest with the change; demo/run.sh with and without the change)",
